@@ -412,8 +412,9 @@ def _superquadratic(ts):
 
 
 def _growing(ts):
-    """both of the last two doublings above GROWTH but the absolute time still below the floor: worth another doubling"""
-    return len(ts) >= 3 and ts[-1] <= T_FLOOR and ts[-1] > GROWTH * max(ts[-2], 1e-4) and ts[-2] > GROWTH * max(ts[-3], 1e-4)
+    """the last doubling is above GROWTH but the absolute time still below the floor: worth another doubling (low-order terms keep
+    the first ratios of a cubic scanner just under its asymptotic 8)"""
+    return len(ts) >= 3 and ts[-1] <= T_FLOOR and ts[-1] > GROWTH * max(ts[-2], 1e-4)
 
 
 def scaling(chk, thorough):
